@@ -43,20 +43,23 @@ theorem createConnect_shape (e : Engine) :
   · exact ⟨_, rfl, rfl, Or.inr rfl⟩
   · exact ⟨_, rfl, rfl, Or.inl rfl⟩
 
-/-- **A server-assigned client id is reused** on later connections when the user configured none. -/
-theorem assigned_client_id_reused (e : Engine) (s : Settings) (hs : e.settings = some s) (hc : e.cfg.connect.clientId = none) :
+/-- **A server-assigned client id is reused** on later connections when the user configured none - or the empty string,
+    which asks the server for an assigned id just the same. -/
+theorem assigned_client_id_reused (e : Engine) (s : Settings) (hs : e.settings = some s)
+    (hc : e.cfg.connect.clientId = none ∨ e.cfg.connect.clientId = some []) :
     ∃ c, e.createConnect = .connect c ∧ c.clientId = some s.clientId := by
   obtain ⟨c, h1, h2, _⟩ := createConnect_shape e
   refine ⟨c, h1, ?_⟩
   rw [h2]
-  simp [Engine.createConnectBase, ConnectOpts.toPacket, hc, hs]
+  rcases hc with hc | hc <;> simp [Engine.createConnectBase, ConnectOpts.toPacket, hc, hs]
 
-theorem configured_client_id_kept (e : Engine) (cid : Bytes) (hc : e.cfg.connect.clientId = some cid) :
+theorem configured_client_id_kept (e : Engine) (cid : Bytes) (hc : e.cfg.connect.clientId = some cid) (hne : cid ≠ []) :
     ∃ c, e.createConnect = .connect c ∧ c.clientId = some cid := by
   obtain ⟨c, h1, h2, _⟩ := createConnect_shape e
   refine ⟨c, h1, ?_⟩
   rw [h2]
-  simp [Engine.createConnectBase, ConnectOpts.toPacket, hc]
+  have : (cid.isEmpty) = false := by cases cid <;> simp_all
+  simp only [Engine.createConnectBase, ConnectOpts.toPacket, hc, Option.getD_some, this]
 
 /-- **Clean start is chosen by the rejoin policy and the connection history** - except that a 3.1.1 CONNECT with a
     zero-byte client identifier always asks for a clean session ([MQTT-3.1.3-7]; there is no session a server could resume
